@@ -18,7 +18,8 @@ INVARIANT NeverSucceeded
 INVARIANT NeverFailedByNode
 INVARIANT NeverCollected
 INVARIANT NeverTwoOwners
-INVARIANT NeverCleaned
-INVARIANT NeverFaulted
 INVARIANT NeverAmbiguous
+PROPERTY NeverCleaned
+PROPERTY NeverFaulted
+PROPERTY NeverGCFault
 CHECK_DEADLOCK FALSE
